@@ -2,26 +2,50 @@
 //! (`processing_loop` → `set_status(Stopping)` → `post_stop` → `ActorLifecycleGuard::cleanup` →
 //! `set_status(Stopped)` → `notify_stop_listener`) driven point by point on the OS thread that runs
 //! the actor's task, racing waiter OS threads that poll `ActorCell::wait()` by hand
-//! (`wait.poll` = harness point before every poll, `wait.created` = the point inside `wait()`).
+//! (`wait.poll` = harness point before every poll, `wait.created` / `wait.checked` = the points inside `wait()`:
+//! after `notified()`, and between the status read and the first poll of the `Notified`).
 //!
 //! After every granted step the controller records the actor's status and what a snapshot shows:
 //! name / pid registration, group membership, group monitor entry, number of children, supervisor
 //! link, number of events the supervisor has received, `post_stop` flag.
 //!
 //! ops.txt / impl.txt:
-//!   `case <cause> <n> <d>`  | `ok <fields> at=<exiter point>`        cause = stop|kill|drain|panic|stoppanic; d drainers
+//!   `case <cause> <n> <d> [forms=k,…]` | `ok <fields> at=<exiter point>`   cause = stop|kill|drain|panic|stoppanic|abort; d drainers;
+//!                            k = wait|waitT|stop|stopT|kill|killT|drain|drainT|join: the call waiter i makes
+//!                            (`wait(None)`, `wait(Some t)`, `stop_and_wait(None, None|Some t)`, `kill_and_wait`,
+//!                            `drain_and_wait`, the `Actor::spawn` join handle), default `wait`
 //!   `step d<i> drain.status`| `<fields> at=done`                      a late `drain()`'s status update
 //!   `succ`                  | `<fields> at=ok|refused`                a successor registers the freed name
 //!   `step e <point>`        | `<fields> at=<next|done>`
-//!   `step w<i> <point>`     | `<fields> at=<next|done>[ ret]`
+//!   `step w<i> <point>`     | `<fields> at=<next|done>[ ret| ret=<ok|err|timeout>]`   (point may be `drain.status`
+//!                            for a `drain_and_wait` caller: its own `drain()`)
+//!   `timeout <i>`           | `<fields> at=done ret=<ok|timeout>`     the timer of a timed call fires (paused clock advanced)
 //!   `abandon <i>`           | `<fields> at=done`
 //!   `end <cause> <n> <sig>` | `<fields> waiters=<r|a|p,…>`            r returned, a abandoned, p still pending
-//! fields = `st=<u8> name=<0|1> succ=<0|1> pid=<0|1> pg=<0|1> mon=<0|1> kids=<n> link=<0|1> sup=<k> post=<0|1>`
+//! fields = `st=<u8> name=<0|1> succ=<0|1> pid=<0|1> pg=<0|1> mon=<0|1> kids=<n> link=<0|1> sup=<k> post=<0|1> sp=<0|1> kp=<0|1>`
+//!          (sp / kp: `verif_ports_open()` — would a `stop()` / `kill()` issued now be accepted)
 //!
 //!   `xstress <i> cause= n=` | `w=<kind:result:st:name:pid:pg:mon:kids:link:post,…> sup=<events> st=<final>`
 //!                            (free-running tasks on a multi-threaded runtime; oracle only)
+//!   `xtimeout <i> kind=wait|stop_and_wait|drain_and_wait d=<µs>` | `res=<ok|timeout|err> el=<µs> st=<u8> ev=<k> fin=<u8> term=<k>`
+//!                            (free-running, real clock: a wait with timeout `d` on a target that cannot finish before the
+//!                            harness lets it — `wait`: it keeps running; the other two: its `post_stop` is gated — must
+//!                            report the timeout, not before `d`, with no effect of a timed-out `wait`; oracle only)
+//!   `xchildren <i> kind=stop|drain n=<k>` | `ret=<0|1> kids=<st,…> parent=<st>`
+//!                            (free-running: `stop_children_and_wait` / `drain_children_and_wait` return only when every
+//!                            child is fully stopped, the parent keeps running; oracle only)
 //!
-//! usage: exitrace --seed S --cases N --out DIR [--enum-cap K] [--stress N] [--replay-ops f1,f2 [--only-replay 1]]
+//!   children wrappers (E-LTS, quiescent points of the controller's paused runtime; k named, pg-joined children under one
+//!   supervisor, handlers gated so that a child can sit in a handler):
+//!   `wcase <kind> t=<0|1> <s0,s1,…>` | `ok kids=<st,…>`     kind = stop|drain (`stop_children_and_wait` / `drain_children_and_wait`),
+//!                            t=1: with `Some(10 s)`; child states idle | busy | stopreq (busy + a racer's `stop()`) |
+//!                            drainreq (busy + a racer's `drain()`) | dead (stopped before the call)
+//!   `wrap`                  | `w=<done|pending> kids=<st,…> acc=<0|1,…>[ snap=<j:st:name:pid:pg:link:post:ev,…>]`
+//!                            acc = the request of THIS call is accepted by child j; snap = taken by the wrapper task the moment
+//!                            the wrapper returned, for every child of the `get_children()` snapshot
+//!   `release <j>` / `kill <j>` / `advance` / `wend`   | `w=… kids=…[ snap=…]`
+//!
+//! usage: exitrace --seed S --cases N --out DIR [--enum-cap K] [--stress N] [--timeouts N] [--children N] [--stress-only 1] [--replay-ops f1,f2 [--only-replay 1]]
 
 use std::future::Future;
 use std::pin::Pin;
@@ -32,6 +56,7 @@ use std::time::Duration;
 
 use hutil::{Args, Log, Rng, Stats};
 use ractor::verif::{self, ThreadCtl, ThreadPhase};
+use ractor::thread_local::{ThreadLocalActor, ThreadLocalActorSpawner};
 use ractor::{Actor, ActorCell, ActorProcessingErr, ActorRef, Message, SupervisionEvent};
 
 static CASE_NO: AtomicU64 = AtomicU64::new(0);
@@ -87,6 +112,28 @@ impl Actor for Target {
     }
 }
 
+/// The target as a thread-local actor (`ThreadLocalActorSpawner`, its own thread): the other spawn
+/// flavour, whose join handle is the `spawn_local` handle handed back through the spawner.
+#[derive(Default)]
+struct LTarget;
+impl ThreadLocalActor for LTarget {
+    type Msg = TMsg;
+    type State = Arc<AtomicBool>;
+    type Arguments = Arc<AtomicBool>;
+    async fn pre_start(&self, _: ActorRef<TMsg>, post: Arc<AtomicBool>) -> Result<Arc<AtomicBool>, ActorProcessingErr> {
+        Ok(post)
+    }
+    async fn handle(&self, _: ActorRef<TMsg>, m: TMsg, _: &mut Arc<AtomicBool>) -> Result<(), ActorProcessingErr> {
+        match m {
+            TMsg::Boom => panic!("boom"),
+        }
+    }
+    async fn post_stop(&self, _: ActorRef<TMsg>, post: &mut Arc<AtomicBool>) -> Result<(), ActorProcessingErr> {
+        post.store(true, Ordering::SeqCst);
+        Ok(())
+    }
+}
+
 struct Child;
 struct Unit;
 impl Message for Unit {}
@@ -134,6 +181,45 @@ enum Choice {
     D(usize),
     /// a successor actor registers the (freed) name
     Succ,
+    /// the timer of timed caller `i` fires
+    Timeout(usize),
+}
+
+/// which call a waiter thread makes
+#[derive(Clone, Copy, Debug, PartialEq)]
+enum WKind {
+    Wait,
+    WaitT,
+    StopWait,
+    StopWaitT,
+    KillWait,
+    KillWaitT,
+    DrainWait,
+    DrainWaitT,
+    Join,
+}
+impl WKind {
+    const ALL: [WKind; 9] =
+        [WKind::Wait, WKind::WaitT, WKind::StopWait, WKind::StopWaitT, WKind::KillWait, WKind::KillWaitT, WKind::DrainWait, WKind::DrainWaitT, WKind::Join];
+    fn name(self) -> &'static str {
+        match self {
+            WKind::Wait => "wait",
+            WKind::WaitT => "waitT",
+            WKind::StopWait => "stop",
+            WKind::StopWaitT => "stopT",
+            WKind::KillWait => "kill",
+            WKind::KillWaitT => "killT",
+            WKind::DrainWait => "drain",
+            WKind::DrainWaitT => "drainT",
+            WKind::Join => "join",
+        }
+    }
+    fn parse(s: &str) -> WKind {
+        *WKind::ALL.iter().find(|k| k.name() == s).unwrap_or_else(|| panic!("unknown wait form {s}"))
+    }
+    fn timed(self) -> bool {
+        matches!(self, WKind::WaitT | WKind::StopWaitT | WKind::KillWaitT | WKind::DrainWaitT)
+    }
 }
 
 /// points that are steps of the model; every other point (tree.*, reg.*, pg.*, admission points)
@@ -156,6 +242,7 @@ fn is_model_point(p: &str) -> bool {
             | "cleanup.stopped"
             | "wait.poll"
             | "wait.created"
+            | "wait.checked"
             | "drain.status"
     )
 }
@@ -163,7 +250,7 @@ fn is_model_point(p: &str) -> bool {
 /// exiter points before `cleanup.stopped`: they touch neither `Stopped` nor `Notify`
 fn is_pre_stop_point(p: &str) -> bool {
     is_model_point(p)
-        && !matches!(p, "cleanup.stopped" | "status.notify" | "notify.waiters" | "notify.one" | "wait.poll" | "wait.created" | "drain.status")
+        && !matches!(p, "cleanup.stopped" | "status.notify" | "notify.waiters" | "notify.one" | "wait.poll" | "wait.created" | "wait.checked" | "drain.status")
 }
 
 struct Env {
@@ -181,6 +268,8 @@ struct View<'a> {
     drainers: &'a [usize],
     /// the name is free and no successor has been started yet
     succ_possible: bool,
+    /// timed callers whose timer may fire now (registered, parked at `wait.poll`)
+    timeable: &'a [usize],
     steps: usize,
 }
 
@@ -205,7 +294,8 @@ fn at(p: &ThreadPhase) -> &'static str {
     }
 }
 
-fn run_case(env: &mut Env, cause: &str, n: usize, ndrain: usize, collapse_pre: bool, choose: &mut dyn FnMut(&View) -> Choice) {
+fn run_case(env: &mut Env, cause: &str, kinds: &[WKind], ndrain: usize, collapse_pre: bool, choose: &mut dyn FnMut(&View) -> Choice) {
+    let n = kinds.len();
     let case_no = CASE_NO.fetch_add(1, Ordering::SeqCst);
     let t0 = std::time::Instant::now();
     let prof = std::env::var("PROF").is_ok();
@@ -220,7 +310,9 @@ fn run_case(env: &mut Env, cause: &str, n: usize, ndrain: usize, collapse_pre: b
 
     // the exiter thread owns the runtime that polls the target actor's task
     let ectl = ThreadCtl::new();
-    let (tx_cell, rx_cell) = mpsc::channel::<ActorRef<TMsg>>();
+    // (the async-std build of this file only RUNS the free-running cases, `main` forces `--stress-only` there:
+    // the cfg lines in this function just keep it compiling against that backend's join handle type)
+    let (tx_cell, rx_cell) = mpsc::channel::<(ActorRef<TMsg>, ractor::concurrency::JoinHandle<()>)>();
     let (tx_go, rx_go) = mpsc::channel::<()>();
     let unsupervised = cause == "stoppanic";
     let exiter = {
@@ -240,17 +332,27 @@ fn run_case(env: &mut Env, cause: &str, n: usize, ndrain: usize, collapse_pre: b
                 }
                 (a, h)
             });
-            tx_cell.send(aref).unwrap();
+            // the join handle goes to the controller (a `join` waiter polls it by hand); this thread
+            // drives the runtime until the actor's task has completed
+            #[cfg(not(feature = "async-std"))]
+            let finished = handle.abort_handle();
+            tx_cell.send((aref, handle)).unwrap();
             rx_go.recv().unwrap();
             verif::thread_register(ectl.clone());
+            #[cfg(not(feature = "async-std"))]
             rt.block_on(async {
-                let _ = handle.await;
+                while !finished.is_finished() {
+                    tokio::task::yield_now().await;
+                }
             });
             verif::thread_unregister();
             ectl.finish();
         })
     };
-    let aref = rx_cell.recv().expect("target actor");
+    let (aref, join_handle) = rx_cell.recv().expect("target actor");
+    #[cfg(not(feature = "async-std"))]
+    let aborter = join_handle.abort_handle();
+    let mut join_handle = Some(join_handle);
     if prof { eprintln!("spawned {:?}", t0.elapsed()); }
     let cell: ActorCell = aref.get_cell();
     let id = cell.get_id();
@@ -264,37 +366,84 @@ fn run_case(env: &mut Env, cause: &str, n: usize, ndrain: usize, collapse_pre: b
     let mut wctls = Vec::new();
     let mut wjoins = Vec::new();
     let mut abandon_flags = Vec::new();
+    let mut fire_flags = Vec::new();
     let results: Arc<Mutex<Vec<Option<&'static str>>>> = Arc::new(Mutex::new(vec![None; n]));
     for i in 0..n {
         let ctl = ThreadCtl::new();
         let flag = Arc::new(AtomicBool::new(false));
+        let fire = Arc::new(AtomicBool::new(false));
         let c2 = ctl.clone();
         let f2 = flag.clone();
+        let fire2 = fire.clone();
         let cell2 = cell.clone();
         let res = results.clone();
+        let kind = kinds[i];
+        let jh = if kind == WKind::Join { Some(join_handle.take().expect("only one join-handle waiter per case")) } else { None };
         wjoins.push(std::thread::spawn(move || {
             verif::thread_register(c2.clone());
-            let mut fut: Pin<Box<dyn Future<Output = ()> + Send>> = Box::pin(async move {
-                let _ = cell2.wait(None).await;
-            });
+            // a timed call needs a timer: an own paused runtime, entered but never run — the call's
+            // future is polled by hand; the clock moves only when the controller fires the timer
+            let rt = if kind.timed() {
+                Some(tokio::runtime::Builder::new_current_thread().enable_time().start_paused(true).build().expect("waiter runtime"))
+            } else {
+                None
+            };
+            let guard = rt.as_ref().map(|r| r.enter());
+            let to = if kind.timed() { Some(Duration::from_secs(1)) } else { None };
+            fn res3<T>(r: Result<(), ractor::RactorErr<T>>) -> &'static str {
+                match r {
+                    Ok(()) => "r",
+                    Err(ractor::RactorErr::Timeout) => "t",
+                    Err(_) => "e",
+                }
+            }
+            let mut fut: Pin<Box<dyn Future<Output = &'static str>>> = match kind {
+                WKind::Wait | WKind::WaitT => Box::pin(async move {
+                    match cell2.wait(to).await {
+                        Ok(()) => "r",
+                        Err(_) => "t",
+                    }
+                }),
+                WKind::StopWait | WKind::StopWaitT => Box::pin(async move { res3(cell2.stop_and_wait(None, to).await) }),
+                WKind::KillWait | WKind::KillWaitT => Box::pin(async move { res3(cell2.kill_and_wait(to).await) }),
+                WKind::DrainWait | WKind::DrainWaitT => Box::pin(async move { res3(cell2.drain_and_wait(to).await) }),
+                WKind::Join => {
+                    let h = jh.expect("join handle");
+                    Box::pin(async move {
+                        match h.await {
+                            Ok(()) => "r",
+                            Err(_) => "e",
+                        }
+                    })
+                }
+            };
             let mut cx = Context::from_waker(Waker::noop());
             let r = loop {
                 verif::point("wait.poll");
                 if f2.load(Ordering::SeqCst) {
                     break "a";
                 }
-                if let Poll::Ready(()) = fut.as_mut().poll(&mut cx) {
-                    break "r";
+                if fire2.swap(false, Ordering::SeqCst) {
+                    // the timer fires: advance the paused clock past the deadline; the next poll of the
+                    // `Timeout` future polls the inner future once more and then the elapsed `Sleep`
+                    rt.as_ref().expect("timed waiter").block_on(async { tokio::time::advance(Duration::from_secs(5)).await });
+                }
+                if let Poll::Ready(r) = fut.as_mut().poll(&mut cx) {
+                    break r;
                 }
             };
             drop(fut);
+            drop(guard);
+            drop(rt);
             res.lock().unwrap()[i] = Some(r);
             verif::thread_unregister();
             c2.finish();
         }));
         wctls.push(ctl);
         abandon_flags.push(flag);
+        fire_flags.push(fire);
     }
+    drop(join_handle);
     if prof { eprintln!("setup {:?}", t0.elapsed()); }
     let mut successor: Option<ActorRef<Unit>> = None;
     let mut wph: Vec<ThreadPhase> = wctls.iter().map(wait_model_point).collect();
@@ -303,8 +452,9 @@ fn run_case(env: &mut Env, cause: &str, n: usize, ndrain: usize, collapse_pre: b
     let fields = |env: &Env| -> String {
         quiesce(&env.crt);
         let ev = events.lock().unwrap();
+        let (sp, kp) = cell.verif_ports_open();
         format!(
-            "st={} name={} succ={} pid={} pg={} mon={} kids={} link={} sup={} post={}",
+            "st={} name={} succ={} pid={} pg={} mon={} kids={} link={} sup={} post={} sp={} kp={}",
             cell.get_status() as u8,
             (ractor::registry::where_is(name.clone()).map(|c| c.get_id()) == Some(id)) as u8,
             ractor::registry::where_is(name.clone()).is_some_and(|c| c.get_id() != id) as u8,
@@ -314,7 +464,9 @@ fn run_case(env: &mut Env, cause: &str, n: usize, ndrain: usize, collapse_pre: b
             cell.verif_num_children(),
             cell.try_get_supervisor().is_some() as u8,
             ev.len(),
-            post.load(Ordering::SeqCst) as u8
+            post.load(Ordering::SeqCst) as u8,
+            sp as u8,
+            kp as u8
         )
     };
 
@@ -328,6 +480,10 @@ fn run_case(env: &mut Env, cause: &str, n: usize, ndrain: usize, collapse_pre: b
         "panic" => {
             let _ = aref.send_message(TMsg::Boom);
         }
+        // task cancellation: the future (and the port set) is dropped at its await point, the lifecycle
+        // guard's `Drop` runs `cleanup` with the "actor_task_cancelled" event
+        #[cfg(not(feature = "async-std"))]
+        "abort" => aborter.abort(),
         _ => panic!("unknown cause {cause}"),
     }
     let mut eph = wait_model_point(&ectl);
@@ -351,9 +507,21 @@ fn run_case(env: &mut Env, cause: &str, n: usize, ndrain: usize, collapse_pre: b
     let mut dph: Vec<ThreadPhase> = dctls.iter().map(wait_model_point).collect();
     if prof { eprintln!("triggered {:?}", t0.elapsed()); }
     let f = fields(env);
-    env.log.rec(format!("case {cause} {n} {ndrain}"), format!("ok {f} at={}", at(&eph)));
+    let forms = if kinds.iter().all(|k| *k == WKind::Wait) {
+        String::new()
+    } else {
+        format!(" forms={}", kinds.iter().map(|k| k.name()).collect::<Vec<_>>().join(","))
+    };
+    env.log.rec(format!("case {cause} {n} {ndrain}{forms}"), format!("ok {f} at={}", at(&eph)));
     env.st.bump("cases");
     env.st.bump(&format!("cause_{cause}"));
+    for k in kinds {
+        env.st.bump(&format!("form_{}", k.name()));
+    }
+    // a kill accepted while a GRACEFUL exit is between `Stopping` and `post_stop` turns it into a killed
+    // exit (post_stop skipped, children terminated by handle_signal): `Tid.kill` of the model
+    // the caller has been polled past `wait.created` (its `Notified` is registered)
+    let mut past_created = vec![false; n];
 
     let mut sig = String::new();
     let mut steps = 0usize;
@@ -388,12 +556,14 @@ fn run_case(env: &mut Env, cause: &str, n: usize, ndrain: usize, collapse_pre: b
             .filter(|(i, p)| matches!(p, ThreadPhase::AtPoint(_)) && if ex.is_some() { !stale[*i] } else { post_polls[*i] < POST_POLLS })
             .map(|(i, p)| (i, at(p)))
             .collect();
+        let timeable: Vec<usize> =
+            ws.iter().filter(|(i, p)| kinds[*i].timed() && past_created[*i] && *p == "wait.poll").map(|(i, _)| *i).collect();
         let ds: Vec<usize> = dph.iter().enumerate().filter(|(_, p)| matches!(p, ThreadPhase::AtPoint(_))).map(|(i, _)| i).collect();
         let succ_possible = successor.is_none() && ractor::registry::where_is(name.clone()).is_none();
         if ex.is_none() && ws.is_empty() && ds.is_empty() {
             break;
         }
-        match choose(&View { exiter: ex, waiters: &ws, drainers: &ds, succ_possible, steps }) {
+        match choose(&View { exiter: ex, waiters: &ws, drainers: &ds, succ_possible, timeable: &timeable, steps }) {
             Choice::D(i) => {
                 assert!(ds.contains(&i), "schedule picks drainer {i} which is not parked");
                 let p = at(&dph[i]);
@@ -431,11 +601,26 @@ fn run_case(env: &mut Env, cause: &str, n: usize, ndrain: usize, collapse_pre: b
                 if ex.is_none() {
                     post_polls[i] += 1;
                 }
+                if p == "wait.checked" {
+                    past_created[i] = true;
+                }
                 wctls[i].grant();
                 wph[i] = wait_model_point(&wctls[i]);
-                stale[i] = at(&wph[i]) == "wait.poll";
+                stale[i] = at(&wph[i]) == "wait.poll" && (past_created[i] || kinds[i] == WKind::Join);
                 let f = fields(env);
-                let ret = if at(&wph[i]) == "done" { " ret" } else { "" };
+                let ret = if at(&wph[i]) == "done" {
+                    let r = results.lock().unwrap()[i].unwrap_or("?");
+                    let r = match r {
+                        "r" => "ok",
+                        "e" => "err",
+                        "t" => "timeout",
+                        o => o,
+                    };
+                    env.st.bump(&format!("ret_{}_{r}", kinds[i].name()));
+                    if kinds[i] == WKind::Wait { " ret".to_string() } else { format!(" ret={r}") }
+                } else {
+                    String::new()
+                };
                 env.log.rec(format!("step w{i} {p}"), format!("{f} at={}{ret}", at(&wph[i])));
                 env.st.bump(&format!("pt_{p}"));
                 if !ret.is_empty() {
@@ -454,6 +639,26 @@ fn run_case(env: &mut Env, cause: &str, n: usize, ndrain: usize, collapse_pre: b
                 env.st.bump("abandon");
                 stale.iter_mut().for_each(|x| *x = false);
                 sig.push('x');
+                sig.push_str(&i.to_string());
+                steps += 1;
+            }
+            Choice::Timeout(i) => {
+                assert!(timeable.contains(&i), "the timer of waiter {i} cannot fire here");
+                fire_flags[i].store(true, Ordering::SeqCst);
+                wctls[i].grant();
+                wph[i] = wait_model_point(&wctls[i]);
+                let f = fields(env);
+                let r = match results.lock().unwrap()[i].unwrap_or("?") {
+                    "r" => "ok",
+                    "t" => "timeout",
+                    "e" => "err",
+                    o => o,
+                };
+                env.log.rec(format!("timeout {i}"), format!("{f} at={} ret={r}", at(&wph[i])));
+                env.st.bump("timer_fired");
+                env.st.bump(&format!("ret_{}_{r}", kinds[i].name()));
+                stale.iter_mut().for_each(|x| *x = false);
+                sig.push('t');
                 sig.push_str(&i.to_string());
                 steps += 1;
             }
@@ -532,7 +737,7 @@ impl Dfs {
     }
 }
 
-fn choices(v: &View, abandon_allowed: bool, succ_allowed: bool) -> Vec<Choice> {
+fn choices(v: &View, abandon_allowed: bool, succ_allowed: bool, timeout_allowed: bool) -> Vec<Choice> {
     let mut c = Vec::new();
     if v.exiter.is_some() {
         c.push(Choice::E);
@@ -553,17 +758,29 @@ fn choices(v: &View, abandon_allowed: bool, succ_allowed: bool) -> Vec<Choice> {
             }
         }
     }
+    if timeout_allowed {
+        for i in v.timeable {
+            c.push(Choice::Timeout(*i));
+        }
+    }
     c
 }
 
 fn enumerate(env: &mut Env, name: &str, cause: &str, n: usize, ndrain: usize, collapse: bool, abandon: bool, succ: bool, cap: u64) {
+    enumerate_forms(env, name, cause, &vec![WKind::Wait; n], ndrain, collapse, abandon, succ, cap)
+}
+
+/// every schedule (up to `cap`) of one configuration; timers of timed callers may fire at any
+/// position (each at most once: the call is over afterwards)
+#[allow(clippy::too_many_arguments)]
+fn enumerate_forms(env: &mut Env, name: &str, cause: &str, kinds: &[WKind], ndrain: usize, collapse: bool, abandon: bool, succ: bool, cap: u64) {
     let mut dfs = Dfs::default();
     let mut count = 0u64;
     let complete = loop {
         dfs.begin();
         let mut used = false;
-        run_case(env, cause, n, ndrain, collapse, &mut |v: &View| {
-            let cs = choices(v, abandon && !used, succ);
+        run_case(env, cause, kinds, ndrain, collapse, &mut |v: &View| {
+            let cs = choices(v, abandon && !used, succ, true);
             let k = dfs.choose(cs.len());
             if let Choice::Abandon(_) = cs[k] {
                 used = true;
@@ -582,12 +799,15 @@ fn enumerate(env: &mut Env, name: &str, cause: &str, n: usize, ndrain: usize, co
     env.st.add(&format!("enum_{name}_complete"), complete as u64);
 }
 
-fn random_case(env: &mut Env, rng: &mut Rng, cause: &str, n: usize, ndrain: usize) {
+fn random_case(env: &mut Env, rng: &mut Rng, cause: &str, kinds: &[WKind], ndrain: usize) {
     let mut r = rng.fork();
     let mode = r.below(4); // 0 uniform, 1 exiter-heavy, 2 waiter-heavy, 3 with abandons
     let collapse = r.chance(1, 3);
     let want_succ = r.chance(1, 2);
-    run_case(env, cause, n, ndrain, collapse, &mut |v: &View| {
+    run_case(env, cause, kinds, ndrain, collapse, &mut |v: &View| {
+        if !v.timeable.is_empty() && r.chance(1, 8) {
+            return Choice::Timeout(v.timeable[r.below(v.timeable.len() as u64) as usize]);
+        }
         if mode == 3 && r.chance(1, 10) {
             let c: Vec<usize> = v.waiters.iter().filter(|(_, p)| *p == "wait.poll").map(|(i, _)| *i).collect();
             if !c.is_empty() {
@@ -622,7 +842,7 @@ fn random_case(env: &mut Env, rng: &mut Rng, cause: &str, n: usize, ndrain: usiz
 /// Real tasks on a multi-threaded runtime call `wait`, `wait(timeout)`, `stop_and_wait`,
 /// `kill_and_wait`, `drain_and_wait` or await the join handle while the actor exits; each takes a
 /// snapshot the moment it completes.
-fn stress_case(env: &mut Env, srt: &tokio::runtime::Runtime, rng: &mut Rng, idx: u64) {
+fn stress_case(env: &mut Env, srt: &tokio::runtime::Runtime, spawner: &ThreadLocalActorSpawner, rng: &mut Rng, idx: u64) {
     let case_no = CASE_NO.fetch_add(1, Ordering::SeqCst);
     let name = format!("c06-target-{case_no}");
     let group = format!("c06-group-{case_no}");
@@ -632,7 +852,24 @@ fn stress_case(env: &mut Env, srt: &tokio::runtime::Runtime, rng: &mut Rng, idx:
     let cause = *rng.pick(&["stop", "stop", "kill", "drain", "panic"]);
     let n = rng.range(1, 6) as usize;
     let kinds: Vec<&'static str> =
-        (0..n).map(|_| *rng.pick(&["wait", "wait", "wait_timeout", "stop_and_wait", "kill_and_wait", "drain_and_wait", "join"])).collect();
+        (0..n)
+            .map(|_| {
+                *rng.pick(&[
+                    "wait",
+                    "wait",
+                    "wait_timeout",
+                    "stop_and_wait",
+                    "kill_and_wait",
+                    "drain_and_wait",
+                    "join",
+                    "stop_and_wait_timeout",
+                    "kill_and_wait_timeout",
+                    "drain_and_wait_timeout",
+                ])
+            })
+            .collect();
+    // one case in three: the target is a thread-local actor on the spawner's thread
+    let local = rng.chance(1, 3);
     let delays: Vec<u64> = (0..n).map(|_| rng.range(0, 3) * rng.range(0, 300)).collect();
     let trigger_delay = rng.range(0, 3) * rng.range(0, 300);
     let touts: Vec<u64> = (0..n).map(|_| rng.range(0, 3)).collect();
@@ -641,8 +878,11 @@ fn stress_case(env: &mut Env, srt: &tokio::runtime::Runtime, rng: &mut Rng, idx:
 
     let (sup_ref, aref, handle, child) = srt.block_on(async {
         let (sup_ref, _) = Actor::spawn(None, Sup { events: events.clone() }, ()).await.expect("spawn sup");
-        let (aref, handle) =
-            Actor::spawn_linked(Some(name.clone()), Target { post: post.clone(), explode: false }, (), sup_ref.get_cell()).await.expect("spawn target");
+        let (aref, handle) = if local {
+            LTarget::spawn_linked(Some(name.clone()), post.clone(), sup_ref.get_cell(), spawner.clone()).await.expect("spawn local target")
+        } else {
+            Actor::spawn_linked(Some(name.clone()), Target { post: post.clone(), explode: false }, (), sup_ref.get_cell()).await.expect("spawn target")
+        };
         let cell = aref.get_cell();
         ractor::pg::join(group.clone(), vec![cell.clone()]);
         ractor::pg::monitor(mgroup.clone(), cell.clone());
@@ -674,6 +914,18 @@ fn stress_case(env: &mut Env, srt: &tokio::runtime::Runtime, rng: &mut Rng, idx:
                     "stop_and_wait" => cell.stop_and_wait(None, None).await.map_err(|_| "err"),
                     "kill_and_wait" => cell.kill_and_wait(None).await.map_err(|_| "err"),
                     "drain_and_wait" => cell.drain_and_wait(None).await.map_err(|_| "err"),
+                    "stop_and_wait_timeout" => cell.stop_and_wait(None, Some(Duration::from_millis(tout))).await.map_err(|e| match e {
+                        ractor::RactorErr::Timeout => "timeout",
+                        _ => "err",
+                    }),
+                    "kill_and_wait_timeout" => cell.kill_and_wait(Some(Duration::from_millis(tout))).await.map_err(|e| match e {
+                        ractor::RactorErr::Timeout => "timeout",
+                        _ => "err",
+                    }),
+                    "drain_and_wait_timeout" => cell.drain_and_wait(Some(Duration::from_millis(tout))).await.map_err(|e| match e {
+                        ractor::RactorErr::Timeout => "timeout",
+                        _ => "err",
+                    }),
                     _ => {
                         let h = handle.lock().await.take();
                         match h {
@@ -727,14 +979,25 @@ fn stress_case(env: &mut Env, srt: &tokio::runtime::Runtime, rng: &mut Rng, idx:
             }
             tokio::time::sleep(Duration::from_millis(1)).await;
         }
+        // … and the actor (possibly on another thread, and nobody may be waiting for it: every call can have
+        // returned an error or a timeout) the time to publish `Stopped`, which follows the terminal event
+        for _ in 0..5000 {
+            if cell.get_status() == ractor::ActorStatus::Stopped {
+                break;
+            }
+            tokio::time::sleep(Duration::from_millis(1)).await;
+        }
         out
     });
     let _ = id;
     env.log.rec(
-        format!("xstress {idx} cause={cause} n={n}"),
+        format!("xstress {idx} cause={cause} n={n}{}", if local { " flavour=local" } else { "" }),
         format!("w={} sup={} st={}", results.join(","), events.lock().unwrap().join(","), cell.get_status() as u8),
     );
     env.st.bump("stress_cases");
+    if local {
+        env.st.bump("stress_thread_local_target");
+    }
     for r in &results {
         env.st.bump(&format!("stress_{}", r.split(':').take(2).collect::<Vec<_>>().join("_")));
     }
@@ -743,23 +1006,428 @@ fn stress_case(env: &mut Env, srt: &tokio::runtime::Runtime, rng: &mut Rng, idx:
     srt.block_on(async { tokio::time::sleep(Duration::from_millis(1)).await });
 }
 
+// ------------------------------------------------------------------------------------------
+// children wrappers: stop_children_and_wait / drain_children_and_wait (quiescent points)
+// ------------------------------------------------------------------------------------------
+
+enum WMsg {
+    Block,
+}
+impl Message for WMsg {}
+
+struct WChild {
+    post: Arc<AtomicBool>,
+    gate: Arc<tokio::sync::Semaphore>,
+}
+impl Actor for WChild {
+    type Msg = WMsg;
+    type State = ();
+    type Arguments = ();
+    async fn pre_start(&self, _: ActorRef<WMsg>, _: ()) -> Result<(), ActorProcessingErr> {
+        Ok(())
+    }
+    async fn handle(&self, _: ActorRef<WMsg>, m: WMsg, _: &mut ()) -> Result<(), ActorProcessingErr> {
+        match m {
+            WMsg::Block => {
+                if let Ok(p) = self.gate.acquire().await {
+                    p.forget();
+                }
+            }
+        }
+        Ok(())
+    }
+    async fn post_stop(&self, _: ActorRef<WMsg>, _: &mut ()) -> Result<(), ActorProcessingErr> {
+        self.post.store(true, Ordering::SeqCst);
+        Ok(())
+    }
+}
+
+#[derive(Clone, Debug, PartialEq)]
+enum WOp {
+    Wrap,
+    Release(usize),
+    Kill(usize),
+    Advance,
+}
+
+fn wrapper_case(env: &mut Env, kind: &str, timed: bool, states: &[String], script: &[WOp]) {
+    let case_no = CASE_NO.fetch_add(1, Ordering::SeqCst);
+    let k = states.len();
+    let events = Arc::new(Mutex::new(Vec::new()));
+    let group = format!("c06w-group-{case_no}");
+    let sup_ref = env.crt.block_on(async { Actor::spawn(None, Sup { events: events.clone() }, ()).await.expect("spawn sup").0 });
+    let sup = sup_ref.get_cell();
+    let mut kids: Vec<ActorRef<WMsg>> = Vec::new();
+    let mut posts = Vec::new();
+    let mut gates = Vec::new();
+    let mut names = Vec::new();
+    for j in 0..k {
+        let post = Arc::new(AtomicBool::new(false));
+        let gate = Arc::new(tokio::sync::Semaphore::new(0));
+        let name = format!("c06w-{case_no}-{j}");
+        let (c, _) = env.crt.block_on(async {
+            Actor::spawn_linked(Some(name.clone()), WChild { post: post.clone(), gate: gate.clone() }, (), sup.clone()).await.expect("spawn child")
+        });
+        ractor::pg::join(group.clone(), vec![c.get_cell()]);
+        kids.push(c);
+        posts.push(post);
+        gates.push(gate);
+        names.push(name);
+    }
+    quiesce(&env.crt);
+    for (j, st) in states.iter().enumerate() {
+        match st.as_str() {
+            "idle" => {}
+            "busy" | "stopreq" | "drainreq" => {
+                let _ = kids[j].send_message(WMsg::Block);
+                quiesce(&env.crt);
+                if st == "stopreq" {
+                    kids[j].stop(None);
+                } else if st == "drainreq" {
+                    let _ = kids[j].drain();
+                }
+            }
+            "dead" => kids[j].stop(None),
+            o => panic!("unknown child state {o}"),
+        }
+        quiesce(&env.crt);
+    }
+    let _ = verif::take_notes();
+    let statuses = |env: &Env| -> String {
+        quiesce(&env.crt);
+        kids.iter().map(|c| (c.get_status() as u8).to_string()).collect::<Vec<_>>().join(",")
+    };
+    let st0 = statuses(env);
+    env.log.rec(format!("wcase {kind} t={} {}", timed as u8, states.join(",")), format!("ok kids={st0}"));
+    env.st.bump("wrapper_cases");
+    env.st.bump(&format!("wrapper_{kind}"));
+    for s in states {
+        env.st.bump(&format!("wchild_{s}"));
+    }
+
+    let mut task: Option<tokio::task::JoinHandle<String>> = None;
+    let mut finished: Option<String> = None;
+    let mut reported = false;
+    let mut acc = String::from("-");
+    let mut full: Vec<WOp> = script.to_vec();
+    // close the case: let every child go, then look once more
+    for j in 0..k {
+        full.push(WOp::Release(j));
+    }
+    let nscript = script.len();
+    for (n, op) in full.iter().enumerate() {
+        let opname = match op {
+            WOp::Wrap => {
+                if task.is_some() {
+                    continue;
+                }
+                // the children of the snapshot `get_children()` will take, and whether each accepts this call's request
+                let snap_ids: Vec<ractor::ActorId> = sup.get_children().iter().map(|c| c.get_id()).collect();
+                acc = kids
+                    .iter()
+                    .map(|c| {
+                        let inside = snap_ids.contains(&c.get_id());
+                        let a = inside && if kind == "stop" { c.verif_ports_open().0 } else { true };
+                        (a as u8).to_string()
+                    })
+                    .collect::<Vec<_>>()
+                    .join(",");
+                let sup2 = sup.clone();
+                let kids2: Vec<ActorCell> = kids.iter().map(|c| c.get_cell()).collect();
+                let (names2, posts2, group2) = (names.clone(), posts.clone(), group.clone());
+                let to = if timed { Some(Duration::from_secs(10)) } else { None };
+                let kind2 = kind.to_string();
+                task = Some(env.crt.spawn(async move {
+                    if kind2 == "stop" {
+                        sup2.stop_children_and_wait(None, to).await;
+                    } else {
+                        sup2.drain_children_and_wait(to).await;
+                    }
+                    // the moment the wrapper returned (nothing else runs in between on this runtime)
+                    let notes = verif::take_notes();
+                    let mut out = Vec::new();
+                    for (j, c) in kids2.iter().enumerate() {
+                        if !snap_ids.contains(&c.get_id()) {
+                            continue;
+                        }
+                        let ev = notes.iter().any(|n| matches!(n, verif::Note::Sup(s) if s.who == Some(c.get_id()) && (s.kind == "Terminated" || s.kind == "Failed")));
+                        out.push(format!(
+                            "{j}:{}:{}:{}:{}:{}:{}:{}",
+                            c.get_status() as u8,
+                            ractor::registry::where_is(names2[j].clone()).is_some() as u8,
+                            ractor::registry::where_is_pid(c.get_id()).is_some() as u8,
+                            ractor::pg::get_members(&group2).iter().any(|m| m.get_id() == c.get_id()) as u8,
+                            c.try_get_supervisor().is_some() as u8,
+                            posts2[j].load(Ordering::SeqCst) as u8,
+                            ev as u8
+                        ));
+                    }
+                    if out.is_empty() { "-".to_string() } else { out.join(",") }
+                }));
+                "wrap".to_string()
+            }
+            WOp::Release(j) => {
+                gates[*j].add_permits(1);
+                if n >= nscript { format!("release {j}") } else { format!("release {j}") }
+            }
+            WOp::Kill(j) => {
+                kids[*j].kill();
+                format!("kill {j}")
+            }
+            WOp::Advance => {
+                env.crt.block_on(async { tokio::time::sleep(Duration::from_secs(20)).await });
+                "advance".to_string()
+            }
+        };
+        let st = statuses(env);
+        if finished.is_none() {
+            if let Some(t) = &task {
+                if t.is_finished() {
+                    let t = task.take().unwrap();
+                    finished = Some(env.crt.block_on(t).unwrap_or_else(|_| "panicked".to_string()));
+                    task = None;
+                }
+            }
+        }
+        let w = if finished.is_some() { "done" } else if task.is_some() { "pending" } else { "-" };
+        let snap = match (&finished, reported) {
+            (Some(s), false) => {
+                reported = true;
+                format!(" snap={s}")
+            }
+            _ => String::new(),
+        };
+        env.log.rec(opname, format!("w={w} kids={st} acc={acc}{snap}"));
+        env.st.bump("wrapper_ops");
+    }
+    let st = statuses(env);
+    let w = if finished.is_some() { "done" } else if task.is_some() { "pending" } else { "-" };
+    env.log.rec("wend".to_string(), format!("w={w} kids={st} acc={acc}"));
+    if let Some(t) = task {
+        t.abort();
+    }
+    for c in &kids {
+        c.kill();
+    }
+    sup_ref.stop(None);
+    quiesce(&env.crt);
+    let _ = verif::take_notes();
+}
+
+fn random_wrapper_case(env: &mut Env, rng: &mut Rng) {
+    let mut r = rng.fork();
+    let kind = *r.pick(&["stop", "stop", "drain"]);
+    let timed = r.chance(1, 2);
+    let k = r.range(1, 4) as usize;
+    let states: Vec<String> = (0..k).map(|_| r.pick(&["idle", "busy", "busy", "stopreq", "drainreq", "dead"]).to_string()).collect();
+    let mut script = Vec::new();
+    // sometimes a child is let go before the call
+    if r.chance(1, 4) {
+        script.push(WOp::Release(r.below(k as u64) as usize));
+    }
+    script.push(WOp::Wrap);
+    let n = r.range(0, 4);
+    for _ in 0..n {
+        let j = r.below(k as u64) as usize;
+        script.push(match r.below(6) {
+            0 => WOp::Kill(j),
+            1 if timed => WOp::Advance,
+            _ => WOp::Release(j),
+        });
+    }
+    wrapper_case(env, kind, timed, &states, &script);
+}
+
+fn parse_wcase(head: &[&str], body: &[&str]) -> (String, bool, Vec<String>, Vec<WOp>) {
+    let kind = head[1].to_string();
+    let timed = head[2] == "t=1";
+    let states: Vec<String> = head[3].split(',').map(|s| s.to_string()).collect();
+    let mut script = Vec::new();
+    for l in body {
+        let w: Vec<&str> = l.split_whitespace().collect();
+        match w.as_slice() {
+            ["wrap"] => script.push(WOp::Wrap),
+            ["release", j] => script.push(WOp::Release(j.parse().expect("child"))),
+            ["kill", j] => script.push(WOp::Kill(j.parse().expect("child"))),
+            ["advance"] => script.push(WOp::Advance),
+            _ => {}
+        }
+    }
+    // the closing releases are appended by `wrapper_case` itself
+    let k = states.len();
+    let tail: Vec<WOp> = (0..k).map(WOp::Release).collect();
+    if script.len() >= k && script[script.len() - k..] == tail[..] {
+        script.truncate(script.len() - k);
+    }
+    (kind, timed, states, script)
+}
+
+// ------------------------------------------------------------------------------------------
+// free-running real-clock cases (agent asyncstd): xtimeout, xchildren — both backends, oracle only
+// ------------------------------------------------------------------------------------------
+
+/// Target of the timeout cases: `post_stop` waits until the harness opens the gate.
+struct Gated {
+    gate: Arc<tokio::sync::Semaphore>,
+}
+impl Actor for Gated {
+    type Msg = Unit;
+    type State = ();
+    type Arguments = ();
+    async fn pre_start(&self, _: ActorRef<Unit>, _: ()) -> Result<(), ActorProcessingErr> {
+        Ok(())
+    }
+    async fn post_stop(&self, _: ActorRef<Unit>, _: &mut ()) -> Result<(), ActorProcessingErr> {
+        let _ = self.gate.acquire().await;
+        Ok(())
+    }
+}
+
+/// `wait(Some(d))` on a running actor, `stop_and_wait(_, Some(d))` / `drain_and_wait(Some(d))` on an actor whose
+/// `post_stop` is gated: the call cannot succeed before the harness lets the actor finish, so it must time out —
+/// measured on the real clock. Afterwards the actor is let go and must stop normally (one terminal event).
+fn timeout_case(env: &mut Env, srt: &tokio::runtime::Runtime, rng: &mut Rng, idx: u64) {
+    let events = Arc::new(Mutex::new(Vec::new()));
+    let kind = *rng.pick(&["wait", "wait", "stop_and_wait", "drain_and_wait"]);
+    let d_us = *rng.pick(&[0u64, 500, 1_000, 2_000, 5_000, 10_000, 20_000]);
+    let gate = Arc::new(tokio::sync::Semaphore::new(0));
+    let obs = srt.block_on(async {
+        let (sup_ref, _) = Actor::spawn(None, Sup { events: events.clone() }, ()).await.expect("spawn sup");
+        let (aref, _h) = Actor::spawn_linked(None, Gated { gate: gate.clone() }, (), sup_ref.get_cell()).await.expect("spawn gated");
+        let cell = aref.get_cell();
+        while aref.get_status() != ractor::ActorStatus::Running {
+            tokio::task::yield_now().await;
+        }
+        let d = Duration::from_micros(d_us);
+        let t0 = std::time::Instant::now();
+        let res = match kind {
+            "wait" => match cell.wait(Some(d)).await {
+                Ok(()) => "ok",
+                Err(_) => "timeout",
+            },
+            "stop_and_wait" => match cell.stop_and_wait(None, Some(d)).await {
+                Ok(()) => "ok",
+                Err(ractor::RactorErr::Timeout) => "timeout",
+                Err(_) => "err",
+            },
+            _ => match cell.drain_and_wait(Some(d)).await {
+                Ok(()) => "ok",
+                Err(ractor::RactorErr::Timeout) => "timeout",
+                Err(_) => "err",
+            },
+        };
+        let el = t0.elapsed().as_micros() as u64;
+        let st = cell.get_status() as u8;
+        let ev = events.lock().unwrap().iter().filter(|e| e.as_str() != "Started").count();
+        // let the actor go: event-driven from here on
+        gate.add_permits(8);
+        if kind == "wait" {
+            cell.stop(None);
+        }
+        let fin_ok = tokio::time::timeout(Duration::from_secs(10), cell.wait(None)).await.is_ok();
+        for _ in 0..2000 {
+            if events.lock().unwrap().iter().any(|e| e.starts_with("Terminated") || e == "Failed") {
+                break;
+            }
+            tokio::time::sleep(Duration::from_millis(1)).await;
+        }
+        let term = events.lock().unwrap().iter().filter(|e| e.starts_with("Terminated") || e.as_str() == "Failed").count();
+        let fin = if fin_ok { cell.get_status() as u8 } else { 255 };
+        sup_ref.stop(None);
+        format!("res={res} el={el} st={st} ev={ev} fin={fin} term={term}")
+    });
+    env.log.rec(format!("xtimeout {idx} kind={kind} d={d_us}"), obs.clone());
+    env.st.bump("timeout_cases");
+    env.st.bump(&format!("timeout_{kind}_{}", obs.split(' ').next().unwrap_or("?")));
+}
+
+/// `stop_children_and_wait` / `drain_children_and_wait` on a running parent with `n` running children whose
+/// `post_stop` is gated; another task opens the gate after a few yields. When the call returns every child must be
+/// fully stopped and the parent untouched. (With the async-std backend the per-child waits are polled inline by the
+/// caller through the backend's `JoinSet` wrapper, with tokio they are a `tokio::task::JoinSet`.)
+fn children_case(env: &mut Env, srt: &tokio::runtime::Runtime, rng: &mut Rng, idx: u64) {
+    let kind = *rng.pick(&["stop", "drain"]);
+    let n = rng.range(1, 4) as usize;
+    let open_after = rng.range(0, 3) * rng.range(0, 200);
+    let gate = Arc::new(tokio::sync::Semaphore::new(0));
+    let obs = srt.block_on(async {
+        // (`Sup` overrides the default supervision policy, which would stop the parent with its first child)
+        let (parent, _) = Actor::spawn(None, Sup { events: Arc::new(Mutex::new(Vec::new())) }, ()).await.expect("spawn parent");
+        // (`spawn` returns after `pre_start`; the loop task sets `Running` after `post_start`)
+        while parent.get_status() != ractor::ActorStatus::Running {
+            tokio::task::yield_now().await;
+        }
+        let mut kids = Vec::new();
+        for _ in 0..n {
+            let (k, _) = Actor::spawn_linked(None, Gated { gate: gate.clone() }, (), parent.get_cell()).await.expect("spawn kid");
+            kids.push(k);
+        }
+        for k in &kids {
+            while k.get_status() != ractor::ActorStatus::Running {
+                tokio::task::yield_now().await;
+            }
+        }
+        let g2 = gate.clone();
+        let opener = tokio::spawn(async move {
+            for _ in 0..open_after {
+                tokio::task::yield_now().await;
+            }
+            g2.add_permits(64);
+        });
+        let cell = parent.get_cell();
+        let fut = async {
+            match kind {
+                "stop" => cell.stop_children_and_wait(None, None).await,
+                _ => cell.drain_children_and_wait(None).await,
+            }
+        };
+        let returned = tokio::time::timeout(Duration::from_secs(10), fut).await.is_ok();
+        let sts: Vec<String> = kids.iter().map(|k| (k.get_status() as u8).to_string()).collect();
+        let pst = parent.get_status() as u8;
+        let _ = opener.await;
+        gate.add_permits(64);
+        parent.stop(None);
+        format!("ret={} kids={} parent={pst}", returned as u8, sts.join(","))
+    });
+    env.log.rec(format!("xchildren {idx} kind={kind} n={n}"), obs);
+    env.st.bump("children_cases");
+    env.st.bump(&format!("children_{kind}"));
+}
+
 fn replay_file(env: &mut Env, path: &str) {
     let txt = std::fs::read_to_string(path).unwrap_or_else(|e| panic!("cannot read {path}: {e}"));
     let lines: Vec<&str> = txt.lines().collect();
     let mut i = 0;
     while i < lines.len() {
         let w: Vec<&str> = lines[i].split_whitespace().collect();
-        let (cause, n, ndrain) = match w.as_slice() {
-            ["case", c, n] => (c.to_string(), n.parse::<usize>().expect("n"), 0),
-            ["case", c, n, d] => (c.to_string(), n.parse::<usize>().expect("n"), d.parse::<usize>().expect("d")),
+        if w.first() == Some(&"wcase") && w.len() == 4 {
+            let mut j = i + 1;
+            while j < lines.len() && !lines[j].starts_with("case ") && !lines[j].starts_with("wcase ") && !lines[j].starts_with("xstress ") {
+                j += 1;
+            }
+            let (kind, timed, states, script) = parse_wcase(&w, &lines[i + 1..j]);
+            wrapper_case(env, &kind, timed, &states, &script);
+            env.st.bump("replayed_cases");
+            i = j;
+            continue;
+        }
+        let (cause, n, ndrain, forms) = match w.as_slice() {
+            ["case", c, n] => (c.to_string(), n.parse::<usize>().expect("n"), 0, None),
+            ["case", c, n, d] => (c.to_string(), n.parse::<usize>().expect("n"), d.parse::<usize>().expect("d"), None),
+            ["case", c, n, d, f] => (c.to_string(), n.parse::<usize>().expect("n"), d.parse::<usize>().expect("d"), f.strip_prefix("forms=")),
             _ => {
                 i += 1;
                 continue;
             }
         };
+        let kinds: Vec<WKind> = match forms {
+            Some(f) => f.split(',').map(WKind::parse).collect(),
+            None => vec![WKind::Wait; n],
+        };
+        assert_eq!(kinds.len(), n, "forms= must list one form per waiter");
         let mut sched = Vec::new();
         i += 1;
-        while i < lines.len() && !lines[i].starts_with("case ") {
+        while i < lines.len() && !lines[i].starts_with("case ") && !lines[i].starts_with("wcase ") {
             let w: Vec<&str> = lines[i].split_whitespace().collect();
             match w.as_slice() {
                 ["step", "e", ..] => sched.push(Choice::E),
@@ -767,13 +1435,14 @@ fn replay_file(env: &mut Env, path: &str) {
                 ["step", t, ..] if t.starts_with('d') => sched.push(Choice::D(t[1..].parse().expect("drainer"))),
                 ["succ"] => sched.push(Choice::Succ),
                 ["abandon", t] => sched.push(Choice::Abandon(t.parse().expect("waiter"))),
+                ["timeout", t] => sched.push(Choice::Timeout(t.parse().expect("waiter"))),
                 _ => {}
             }
             i += 1;
         }
         let mut k = 0;
         let mut extra = 0usize;
-        run_case(env, &cause, n, ndrain, false, &mut |v: &View| {
+        run_case(env, &cause, &kinds, ndrain, false, &mut |v: &View| {
             while k < sched.len() {
                 let c = sched[k];
                 k += 1;
@@ -783,6 +1452,7 @@ fn replay_file(env: &mut Env, path: &str) {
                     Choice::Abandon(t) => v.waiters.iter().any(|(e, p)| *e == t && *p == "wait.poll"),
                     Choice::D(t) => v.drainers.contains(&t),
                     Choice::Succ => v.succ_possible,
+                    Choice::Timeout(t) => v.timeable.contains(&t),
                 };
                 if ok {
                     return c;
@@ -799,6 +1469,7 @@ fn replay_file(env: &mut Env, path: &str) {
             let _ = v.steps;
             Choice::W(v.waiters[extra % v.waiters.len()].0)
         });
+        let _ = n;
         env.st.bump("replayed_cases");
     }
 }
@@ -825,7 +1496,10 @@ fn main() {
             replay_file(&mut env, f);
         }
     }
-    if args.u64("only-replay", 0) == 0 {
+    // `--stress-only 1`: only the free-running cases (the schedule-point engine needs the actor's task on a
+    // registered OS thread, which only the tokio backend's per-thread runtime gives)
+    let stress_only = args.u64("stress-only", 0) != 0 || cfg!(feature = "async-std");
+    if args.u64("only-replay", 0) == 0 && !stress_only {
         // every schedule of small configurations
         // a late `drain()` at every position of the exit sequence, a successor taking the freed name
         // at every position after it was freed
@@ -837,19 +1511,85 @@ fn main() {
         enumerate(&mut env, "kill_2w_collapsed", "kill", 2, 0, true, false, false, enum_cap);
         enumerate(&mut env, "stop_2w_abandon", "stop", 2, 0, true, true, false, enum_cap);
         enumerate(&mut env, "stoppanic_2w_collapsed", "stoppanic", 2, 0, true, false, false, enum_cap);
-        let causes = ["stop", "stop", "kill", "drain", "panic", "stoppanic"];
+        // every wait form against the exit, the timer of a timed call firing at any position
+        let forms_cap = args.u64("forms-cap", enum_cap);
+        use WKind::*;
+        let form_cfgs: [(&str, &str, &[WKind], bool); 14] = [
+            ("kill_stopT_full", "kill", &[StopWaitT], false),
+            ("stop_killT_full", "stop", &[KillWaitT], false),
+            ("stop_drainT_full", "stop", &[DrainWaitT], false),
+            ("kill_drain_full", "kill", &[DrainWait], false),
+            ("stop_join_full", "stop", &[Join], false),
+            ("stop_waitT_full", "stop", &[WaitT], false),
+            ("panic_stop_full", "panic", &[StopWait], false),
+            ("drain_stopT_wait", "drain", &[StopWaitT, Wait], true),
+            ("kill_join_killT", "kill", &[Join, KillWaitT], true),
+            ("stop_stop_waitT", "stop", &[StopWait, WaitT], true),
+            ("stoppanic_join_drainT", "stoppanic", &[Join, DrainWaitT], true),
+            ("drain_drain_kill", "drain", &[DrainWait, KillWait], true),
+            ("abort_join_wait", "abort", &[Join, Wait], true),
+            ("abort_stopT_full", "abort", &[StopWaitT], false),
+        ];
+        for (name, cause, kinds, collapse) in form_cfgs {
+            enumerate_forms(&mut env, name, cause, kinds, 0, collapse, false, false, forms_cap);
+        }
+        let causes = ["stop", "stop", "kill", "drain", "panic", "stoppanic", "abort"];
         for _ in 0..cases {
             let cause = *rng.pick(&causes);
             let n = rng.range(0, 4) as usize;
             let ndrain = *rng.pick(&[0usize, 0, 1, 1, 2]);
-            random_case(&mut env, &mut rng, cause, n, ndrain);
+            // half of the random cases: every waiter makes a random call (at most one join handle)
+            let mut kinds = vec![Wait; n];
+            if rng.chance(1, 2) {
+                let mut have_join = false;
+                for k in kinds.iter_mut() {
+                    let mut c = *rng.pick(&WKind::ALL);
+                    if c == Join && have_join {
+                        c = Wait;
+                    }
+                    have_join |= c == Join;
+                    *k = c;
+                }
+            }
+            random_case(&mut env, &mut rng, cause, &kinds, ndrain);
+        }
+    }
+    let wrappers = args.u64("wrappers", 0);
+    if wrappers > 0 && args.u64("only-replay", 0) == 0 {
+        let sv = |l: &[&str]| -> Vec<String> { l.iter().map(|s| s.to_string()).collect() };
+        use WOp::*;
+        // children in every state under one call; the refused child is still running when the wrapper returns
+        wrapper_case(&mut env, "stop", false, &sv(&["idle", "busy", "stopreq", "drainreq", "dead"]), &[Wrap, Release(1), Release(3), Release(2)]);
+        wrapper_case(&mut env, "stop", false, &sv(&["stopreq"]), &[Wrap]);
+        wrapper_case(&mut env, "drain", false, &sv(&["idle", "busy", "stopreq", "drainreq", "dead"]), &[Wrap, Release(3), Release(1), Release(2)]);
+        wrapper_case(&mut env, "stop", true, &sv(&["busy", "idle", "drainreq"]), &[Wrap, Advance, Release(0)]);
+        wrapper_case(&mut env, "drain", true, &sv(&["busy", "busy"]), &[Wrap, Release(1), Advance]);
+        wrapper_case(&mut env, "stop", false, &sv(&["busy", "busy"]), &[Wrap, Kill(0), Release(1)]);
+        wrapper_case(&mut env, "drain", false, &sv(&["stopreq", "drainreq"]), &[Wrap, Kill(1), Release(0)]);
+        for _ in 0..wrappers {
+            random_wrapper_case(&mut env, &mut rng);
         }
     }
     let stress = args.u64("stress", 0);
     if stress > 0 && args.u64("only-replay", 0) == 0 {
         let srt = tokio::runtime::Builder::new_multi_thread().worker_threads(3).enable_time().build().expect("stress runtime");
+        let spawner = ThreadLocalActorSpawner::new();
         for i in 0..stress {
-            stress_case(&mut env, &srt, &mut rng, i);
+            stress_case(&mut env, &srt, &spawner, &mut rng, i);
+        }
+    }
+    let timeouts = args.u64("timeouts", 0);
+    if timeouts > 0 && args.u64("only-replay", 0) == 0 {
+        let srt = tokio::runtime::Builder::new_multi_thread().worker_threads(2).enable_time().build().expect("timeout runtime");
+        for i in 0..timeouts {
+            timeout_case(&mut env, &srt, &mut rng, i);
+        }
+    }
+    let children = args.u64("children", 0);
+    if children > 0 && args.u64("only-replay", 0) == 0 {
+        let srt = tokio::runtime::Builder::new_multi_thread().worker_threads(2).enable_time().build().expect("children runtime");
+        for i in 0..children {
+            children_case(&mut env, &srt, &mut rng, i);
         }
     }
     env.st.add("lines", env.log.lines);
